@@ -154,6 +154,7 @@ func TestVerifC19(t *testing.T) {
 		}
 		mode := ci % 4 // 0: one MMR object; 1: restart from a state copy at random points; 2: via AppendAndCommitMmr; 3: restart with spare capacity
 		items := make([]types.OpaqueHash, 0, L)
+		zeroHeavy := r.IntN(3) == 0
 		m := mmr.NewMMR(hash.KeccakHash)
 		var state types.Mmr
 		var snaps []snap
@@ -163,6 +164,10 @@ func TestVerifC19(t *testing.T) {
 			copy(it[:], r.Bytes(32))
 			if r.IntN(50) == 0 && len(items) > 0 {
 				it = items[r.IntN(len(items))] // repeated item
+			}
+			if zeroHeavy && r.IntN(3) == 0 {
+				it = types.OpaqueHash{} // the all-zero item (the commitment of a block without accumulation outputs): a leaf like any other
+				h.Inc("all_zero_items_appended")
 			}
 			items = append(items, it)
 			var got []types.MmrPeak
